@@ -47,6 +47,27 @@ impl IncanLanguageServer {
 
     /// Analyze a document and publish diagnostics
     async fn analyze_document(&self, uri: &Url, source: &str, version: i32) {
+        // Record the new text before analysing it, so the document map always holds the latest version the client
+        // sent: handlers run concurrently and await (dependency lookup, publishing) before their results are stored,
+        // so an analysis of an older version may finish after a newer one, and a version that does not parse would
+        // otherwise leave the previous text in place. `ast` is filled in below once the analysis succeeds.
+        {
+            let mut docs = self.documents.write().await;
+            if docs.get(uri).is_some_and(|doc| doc.version > version) {
+                // A newer version has already been recorded; this notification is stale.
+                return;
+            }
+            docs.insert(
+                uri.clone(),
+                DocumentState {
+                    source: source.to_string(),
+                    ast: None,
+                    version,
+                    const_types: HashMap::new(),
+                },
+            );
+        }
+
         let mut diagnostics = Vec::new();
 
         // Step 1: Lex
@@ -105,18 +126,17 @@ impl IncanLanguageServer {
             }
         }
 
-        // Store AST for hover/goto
+        // Store AST for hover/goto, unless the document was changed or closed while this version was being analysed
+        // (the results are stale then: a newer analysis publishes its own diagnostics, a close has cleared them).
         {
             let mut docs = self.documents.write().await;
-            docs.insert(
-                uri.clone(),
-                DocumentState {
-                    source: source.to_string(),
-                    ast: Some(ast),
-                    version,
-                    const_types,
-                },
-            );
+            match docs.get_mut(uri) {
+                Some(doc) if doc.version == version && doc.source == source => {
+                    doc.ast = Some(ast);
+                    doc.const_types = const_types;
+                }
+                _ => return,
+            }
         }
 
         // Publish diagnostics (even if empty, to clear old ones)
